@@ -382,6 +382,9 @@ func checkC08(run *mon.Run, rng *mon.Rand, thorough bool) {
 			w.tc.L1.EnableShadow(rr.U64())
 			w.tc.L2.EnableShadow(rr.U64())
 		}
+		if rr.Bool() {
+			w.tc.BankFaults = rr.Split() // some relays meet a failing / panicking mint or transfer underneath the handler
+		}
 		for _, d := range w.denoms {
 			w.initial[d] = new(big.Int)
 			for _, coins := range sim.AllBalances(l1.Ctx, l1.BK) {
